@@ -304,6 +304,22 @@ def family():
                                                 [[_row(4, i, W) for i in range(n2)], [max(0, n2 - 1), 0], "list"]])
 
 
+    # rows whose text is what str() makes of a value a cache, a dict.get or a default could hold: on an unknown screen, after a blank row, after
+    # another such row
+    for H in (1, 2, 3):
+        for W in (4, 5):
+            for pre in (0, H + 1):
+                for k, t in enumerate(SENTINELS):
+                    t2 = SENTINELS[(k + 1) % len(SENTINELS)]
+                    for first in ([], [""] * H, ["x"] * H, [t2[:W]] * H):
+                        idx += 1
+                        yield dict(H=H, W=W, pre=pre, up=0, col=0, keep=idx % 2 == 0, hide=idx % 3 == 0,
+                                   renders=[[first, [0, 0], "list"], [[t[:W]] * H, [0, 0], "list"], [[[[t[:W], 0]]] + [""] * (H - 1), [0, 0], "list"]])
+
+
+SENTINELS = ["None", "0", "False", "[]", "-1", "''"]
+
+
 # ---------------------------------------------------------------------- random histories
 def rand_case(seed):
     rng = random.Random(seed)
@@ -323,6 +339,9 @@ def rand_case(seed):
         else:
             cut = rng.randint(0, n)
             rowpool.append([[text[:cut], rng.randrange(len(ATTS))], [text[cut:], rng.randrange(len(ATTS))]])
+    if rng.random() < .15:      # a row whose text is what str() makes of a value the cache could hold
+        t = rng.choice(SENTINELS)[:W]
+        rowpool.append(t if rng.random() < .5 else [[t, 0]])
     renders = []
     prev = []
     for _ in range(rng.randint(1, 4)):
